@@ -381,7 +381,7 @@ void World::doFork(const Op& op) {
 	if (result.tainted) return;
 	if (wants("C10")) {
 		checked("C10.copy");
-		if (!C.obs.sameConfig(A2.obs) || C.obs.prev != A2.obs.prev || C.obs.queued != A2.obs.queued || C.h->trace.size() != 0)
+		if (!C.obs.sameConfig(A2.obs) || C.obs.prev != A2.obs.prev || C.obs.queued != A2.obs.queued || C.obs.lastTo != A2.obs.lastTo || C.obs.plans != A2.obs.plans || C.obs.activity != A2.obs.activity || C.h->trace.size() != 0)
 			violate("C10.copy", "a fresh copy does not report the same state as its original (or copying ran callbacks)", ci);
 	}
 }
